@@ -72,6 +72,37 @@ class _SelfToName(ast.NodeTransformer):
         return node
 
 
+def _no_inplace_writes(fn, owner):
+    """no slice / element / out= / augmented write into a cached grid array (plain
+    re-binding `self.x = ...` is what the state-machine translation sees)"""
+    cached = SCALARS + ARRAYS + COMPACT
+    for n in ast.walk(fn):
+        if isinstance(n, ast.Subscript) and isinstance(n.ctx, (ast.Store, ast.Del)) and \
+                _is_self_attr(n.value, cached):
+            raise TranslateError("%s.%s writes into %s in place (line %d)" % (
+                owner, fn.name, n.value.attr, n.lineno))
+        if isinstance(n, ast.AugAssign):
+            t = n.target.value if isinstance(n.target, ast.Subscript) else n.target
+            if _is_self_attr(t, cached):
+                raise TranslateError("%s.%s updates %s in place (line %d)" % (
+                    owner, fn.name, t.attr, n.lineno))
+        if isinstance(n, ast.Call):
+            for kw in n.keywords:
+                if kw.arg in ("out", "where") and any(
+                        _is_self_attr(m, cached) for m in ast.walk(kw.value)):
+                    raise TranslateError("%s.%s: %s= names a cached array (line %d)" % (
+                        owner, fn.name, kw.arg, n.lineno))
+            if isinstance(n.func, ast.Attribute) and _is_self_attr(n.func.value, cached) and \
+                    n.func.attr in ("fill", "sort", "put", "itemset", "resize", "partition",
+                                    "setfield", "__setitem__", "__iadd__", "__imul__"):
+                raise TranslateError("%s.%s mutates %s (line %d)" % (
+                    owner, fn.name, n.func.value.attr, n.lineno))
+            if ast.unparse(n.func) in ("np.copyto", "np.put", "np.place", "np.putmask") and \
+                    n.args and _is_self_attr(n.args[0], cached):
+                raise TranslateError("%s.%s: %s into a cached array (line %d)" % (
+                    owner, fn.name, ast.unparse(n.func), n.lineno))
+
+
 def _natexpr(node):
     if isinstance(node, ast.Constant) and isinstance(node.value, int) and \
             not isinstance(node.value, bool) and node.value >= 0:
@@ -188,10 +219,22 @@ def gen_grid(src):
     for f in cls.body:
         if not isinstance(f, ast.FunctionDef):
             continue
+        _no_inplace_writes(f, "Grid")
         for n in ast.walk(f):
             if isinstance(n, ast.Attribute) and isinstance(n.ctx, ast.Store) and \
                     _is_self_attr(n, SCALARS + ARRAYS + COMPACT):
                 writers.setdefault(f.name, set()).add(n.attr)
+    # the node arrays are bound once, before the first caching
+    seen_c = False
+    for st in init.body:
+        if ast.unparse(st) == "self._cacheCoordinates()":
+            seen_c = True
+        elif seen_c:
+            for n in ast.walk(st):
+                if isinstance(n, ast.Attribute) and isinstance(n.ctx, ast.Store) and \
+                        _is_self_attr(n, SCALARS + ARRAYS + COMPACT):
+                    raise TranslateError("__init__ writes %s after caching (line %d)" % (
+                        n.attr, n.lineno))
     allowed = set(STATE_METHODS) | {"__init__"}
     extra = set(writers) - allowed
     if extra:
@@ -239,12 +282,29 @@ def gen_grid(src):
 
     # getters used by getDeltas / integrate
     gcd = _method(cls, "getCompactificationDerivatives")
+    gbody = [st for st in gcd.body if not _is_doc(st)]
+    if len(gbody) != 2 or not isinstance(gbody[0], ast.If) or \
+            ast.unparse(gbody[0].test) != "endpoints" or gbody[0].orelse or \
+            gcd.decorator_list or [a.arg for a in gcd.args.args] != ["self", "endpoints"] or \
+            [ast.unparse(d) for d in gcd.args.defaults] != ["False"]:
+        raise TranslateError("getCompactificationDerivatives: body outside the subset")
     ret = gcd.body[-1]
     if not (isinstance(ret, ast.Return) and isinstance(ret.value, ast.Tuple) and
             all(_is_self_attr(e, ARRAYS) for e in ret.value.elts)):
         raise TranslateError("getCompactificationDerivatives: unexpected final return")
     getters = {"getCompactificationDerivatives": [e.attr for e in ret.value.elts]}
-    gcc = ast.unparse(_method(cls, "getCompactCoordinates"))
+    gccf = _method(cls, "getCompactCoordinates")
+    gcc_want = [
+        "if endpoints:\n    chi = np.array([-1] + list(self.chiValues) + [1])\n"
+        "    rz = np.array([-1] + list(self.rzValues) + [1])\n"
+        "    rp = np.array(list(self.rpValues) + [1])\nelse:\n"
+        "    chi, rz, rp = (self.chiValues, self.rzValues, self.rpValues)",
+        "if direction == 'z':\n    return chi", "if direction == 'pz':\n    return rz",
+        "if direction == 'pp':\n    return rp", "return (chi, rz, rp)"]
+    if [ast.unparse(st) for st in gccf.body if not _is_doc(st)] != gcc_want or \
+            gccf.decorator_list:
+        raise TranslateError("getCompactCoordinates: body outside the subset")
+    gcc = ast.unparse(gccf)
     want = "chi, rz, rp = (self.chiValues, self.rzValues, self.rpValues)"
     if want not in gcc:
         raise TranslateError("getCompactCoordinates: node arrays are not returned as is")
@@ -294,6 +354,7 @@ def gen_grid_subclass(src, name, grid_src, px):
             if item.name in base_methods and item.name not in SUB_MAY_OVERRIDE:
                 raise TranslateError("%s overrides Grid.%s (outside the model)" % (
                     name, item.name))
+            _no_inplace_writes(item, name)
             for n in ast.walk(item):
                 if isinstance(n, ast.Attribute) and isinstance(n.ctx, (ast.Store, ast.Del)) \
                         and _is_self_attr(n, ["momentumFalloffT"] + ARRAYS + COMPACT):
@@ -449,6 +510,40 @@ def gen_integrate(src):
            ast.unparse(st.targets[0]) == "result"]
     if len(res) != 1 or ast.unparse(res[0].value) != "np.sum(integrand, axis)":
         raise TranslateError("integrate: result is not np.sum(integrand, axis)")
+    # every top-level statement is pinned (input normalisation, the two loops, the pinned
+    # assignments, the two returns); anything else stops the translator
+    pinned = {
+        "if weight is None:\n    weight = 1",
+        "if axis is None:\n    axis = tuple(np.arange(self.rank))",
+        "if isinstance(axis, int):\n    axis = (axis,)\n    self._checkAxis(axis)",
+        "basis = []",
+        "self.changeBasis(tuple(basis))",
+        ast.unparse(ig[0]),
+        "newBasis, newDirection, newEndpoints = ([], [], [])",
+        "(newBasis, newDirection, newEndpoints) = ([], [], [])",
+        "result = np.sum(integrand, axis)",
+        "if np.asanyarray(result).ndim == 0:\n    return float(result)",
+        "return Polynomial(result, self.grid, tuple(newBasis), tuple(newDirection), "
+        "tuple(newEndpoints))",
+    }
+    seen_txt = []
+    for st in fn.body:
+        if _is_doc(st) or st in loops:
+            continue
+        txt = ast.unparse(st)
+        if txt not in pinned:
+            raise TranslateError("integrate: statement outside the subset (line %d): %s" % (
+                st.lineno, txt[:70]))
+        seen_txt.append(txt)
+    if len(seen_txt) != len(set(seen_txt)) or not isinstance(fn.body[-1], ast.Return):
+        raise TranslateError("integrate: repeated statement / no final return")
+    if fn.decorator_list or [a.arg for a in fn.args.args] != ["self", "axis", "weight"]:
+        raise TranslateError("integrate: signature")
+    want_else = ["newBasis.append(self.basis[i])", "newDirection.append(self.direction[i])",
+                 "newEndpoints.append(self.endpoints[i])"]
+    if [ast.unparse(x) for x in loops[1].body[0].orelse] != want_else or loops[1].orelse \
+            or loops[0].orelse:
+        raise TranslateError("integrate: bookkeeping of the remaining axes")
     # (2) nodal weights, by symbolic interpretation of the weights block per direction
     l2 = loops[1]
     if not (len(l2.body) == 1 and isinstance(l2.body[0], ast.If) and
@@ -565,6 +660,65 @@ def _basis_term(node):
     raise TranslateError("basis %s" % ast.unparse(node))
 
 
+def _observer_pure(cls, mname, seen=None):
+    """an observer x = self.m(deltaF) must not be able to write into deltaF: syntactic,
+    conservative (out=/copy=False keywords, in-place stores into deltaF or into the
+    coefficients of a Polynomial wrapping it, mutating ndarray methods), recursive through
+    self.* calls that receive deltaF"""
+    seen = seen if seen is not None else set()
+    if mname in seen:
+        return
+    seen.add(mname)
+    fn = _method(cls, mname)
+    if fn.decorator_list:
+        raise TranslateError("observer %s is decorated" % mname)
+    # names that (may) alias deltaF: the parameter, and locals built directly from it
+    alias = {a.arg for a in fn.args.args if a.arg != "self"}
+    for n in ast.walk(fn):
+        if isinstance(n, ast.Assign) and any(
+                isinstance(m, ast.Name) and m.id in alias for m in ast.walk(n.value)):
+            for t in n.targets:
+                for m in ast.walk(t):
+                    if isinstance(m, ast.Name):
+                        alias.add(m.id)
+
+    def touches(node):
+        return any(isinstance(m, ast.Name) and m.id in alias for m in ast.walk(node))
+    for n in ast.walk(fn):
+        if isinstance(n, ast.Call):
+            for kw in n.keywords:
+                if kw.arg == "out" or (kw.arg == "copy" and ast.unparse(kw.value) == "False"):
+                    raise TranslateError("observer %s uses %s= (line %d)" % (
+                        mname, kw.arg, n.lineno))
+            if isinstance(n.func, ast.Attribute) and n.func.attr in (
+                    "fill", "sort", "put", "itemset", "resize", "partition", "clip") and \
+                    touches(n.func.value) and n.func.attr != "clip":
+                raise TranslateError("observer %s mutates its argument (line %d)" % (
+                    mname, n.lineno))
+            if ast.unparse(n.func) in ("np.copyto", "np.put", "np.place", "np.putmask",
+                                       "np.nan_to_num") and n.args and touches(n.args[0]) \
+                    and ast.unparse(n.func) != "np.nan_to_num":
+                raise TranslateError("observer %s writes into its argument (line %d)" % (
+                    mname, n.lineno))
+            if _is_self_attr(n.func) and any(touches(a) for a in n.args) and \
+                    any(f.name == n.func.attr for f in cls.body
+                        if isinstance(f, ast.FunctionDef)):
+                _observer_pure(cls, n.func.attr, seen)
+        if isinstance(n, (ast.Subscript, ast.Attribute)) and \
+                isinstance(n.ctx, (ast.Store, ast.Del)) and touches(n):
+            if isinstance(n, ast.Subscript) or n.attr == "coefficients":
+                raise TranslateError("observer %s stores into %s (line %d)" % (
+                    mname, ast.unparse(n)[:40], n.lineno))
+        if isinstance(n, ast.AugAssign) and touches(n.target) and not isinstance(
+                n.target, ast.Name):
+            raise TranslateError("observer %s updates %s in place (line %d)" % (
+                mname, ast.unparse(n.target)[:40], n.lineno))
+        if isinstance(n, ast.AugAssign) and isinstance(n.target, ast.Name) and \
+                n.target.id in alias:
+            raise TranslateError("observer %s updates %s in place (line %d)" % (
+                mname, n.target.id, n.lineno))
+
+
 def gen_getdeltas(src, getters, intw_params):
     """Statement-by-statement recogniser of getDeltas: EVERY statement must be of one of the
     recognised forms (single assignment; no control flow except the `deltaF is None`
@@ -673,6 +827,7 @@ def gen_getdeltas(src, getters, intw_params):
                 continue
             if isinstance(val, ast.Call) and _is_self_attr(val.func) and \
                     [ast.unparse(a) for a in val.args] == ["deltaF"] and not val.keywords:
+                _observer_pure(cls, val.func.attr)
                 for e in tg.elts:
                     fresh(e.id, "aux", st)
                     aux.add(e.id)
@@ -685,6 +840,7 @@ def gen_getdeltas(src, getters, intw_params):
         # --- observers of deltaF (error estimates) -----------------------------------------
         if isinstance(val, ast.Call) and _is_self_attr(val.func) and \
                 [ast.unparse(a) for a in val.args] == ["deltaF"] and not val.keywords:
+            _observer_pure(cls, val.func.attr)
             fresh(name, "aux", st)
             aux.add(name)
             continue
@@ -924,9 +1080,96 @@ def gen_tmunu(eom_src, helpers_src):
 # ------------------------------------------------------------------------------------
 # plumbing around getDeltas: where msq and the particle list come from (facts, fail closed)
 
+def _bound_by_import(src, fname, names):
+    """each name is bound exactly once at module level, by `from <module> import name`"""
+    tree = ast.parse(src)
+    for nm, module in names.items():
+        binders = []
+        for st in tree.body:
+            if isinstance(st, ast.ImportFrom):
+                for a in st.names:
+                    if (a.asname or a.name) == nm:
+                        binders.append("from %s%s import %s" % ("." * st.level,
+                                                                st.module or "", a.name))
+            elif isinstance(st, ast.Import):
+                for a in st.names:
+                    if (a.asname or a.name.split(".")[0]) == nm:
+                        binders.append("import " + a.name)
+            elif isinstance(st, (ast.FunctionDef, ast.ClassDef, ast.AsyncFunctionDef)):
+                if st.name == nm:
+                    binders.append("def/class %s (line %d)" % (nm, st.lineno))
+            else:
+                for n in ast.walk(st):
+                    if isinstance(n, ast.Name) and n.id == nm and \
+                            isinstance(n.ctx, (ast.Store, ast.Del)):
+                        binders.append("assignment (line %d)" % n.lineno)
+                    if isinstance(n, ast.Global) and nm in n.names:
+                        binders.append("global (line %d)" % n.lineno)
+        if binders != ["from %s import %s" % (module, nm)]:
+            raise TranslateError("%s: the name %s is bound by %s, expected `from %s import "
+                                 "%s` only" % (fname, nm, binders, module, nm))
+    # no function re-binds them locally or as a global either
+    for n in ast.walk(tree):
+        if isinstance(n, (ast.Global, ast.Nonlocal)) and set(n.names) & set(names):
+            raise TranslateError("%s: global/nonlocal re-binding of %s" % (fname, n.names))
+
+
+COPY_CLASSES = {"containers.py": ["BoltzmannBackground"], "fields.py": ["Fields", "FieldPoint"]}
+COPY_HOOKS = ("__deepcopy__", "__copy__", "__getstate__", "__setstate__", "__reduce__",
+              "__reduce_ex__", "__getattr__", "__getattribute__", "__setattr__",
+              "__delattr__")
+
+
+def gen_copy_facts(package):
+    """what deepcopy(background) does is decided by the copy protocol of the classes the
+    background is made of: none of them may customise it (fail closed)"""
+    facts = []
+    for fname, classes in COPY_CLASSES.items():
+        if fname not in package:
+            raise TranslateError("%s not found in the package" % fname)
+        tree = ast.parse(package[fname])
+        for cname in classes:
+            cls = _class(tree, cname)
+            for f in cls.body:
+                if isinstance(f, (ast.FunctionDef, ast.AsyncFunctionDef)) and \
+                        f.name in COPY_HOOKS:
+                    raise TranslateError("class %s defines the copy/attribute hook %s "
+                                         "(line %d): deepcopy(background) is no longer a "
+                                         "plain deep copy" % (cname, f.name, f.lineno))
+                if isinstance(f, (ast.Assign, ast.AnnAssign)):
+                    tg = f.targets if isinstance(f, ast.Assign) else [f.target]
+                    if any(isinstance(t, ast.Name) and t.id in COPY_HOOKS + ("__slots__",)
+                           for t in tg):
+                        raise TranslateError("class %s assigns %s at class level" % (
+                            cname, ast.unparse(tg[0])))
+            if any(k.arg == "metaclass" for k in cls.keywords) or cls.decorator_list:
+                raise TranslateError("class %s: metaclass / decorator" % cname)
+            facts.append("%s: no copy hooks" % cname)
+        for st in tree.body:           # copyreg / module-level patching of the protocol
+            txt = ast.unparse(st)
+            if "copyreg" in txt or any(("." + h) in txt for h in COPY_HOOKS
+                                       if not isinstance(st, ast.ClassDef)):
+                raise TranslateError("%s: module-level use of the copy protocol: %s" % (
+                    fname, txt[:60]))
+    return facts
+
+
 def gen_plumbing(boltz_src, eom_src):
     cls = _class(ast.parse(boltz_src), "BoltzmannSolver")
     facts = []
+    _bound_by_import(boltz_src, "boltzmann.py", {
+        "deepcopy": "copy", "Polynomial": ".polynomial", "BoltzmannDeltas": ".containers",
+        "BoltzmannResults": ".results"})
+    _bound_by_import(eom_src, "equationOfMotion.py", {"gammaSq": ".helpers"})
+    init = _method(cls, "__init__")
+    if sum(ast.unparse(st) == "self.grid = grid" for st in init.body) != 1 or \
+            "grid" not in [a.arg for a in init.args.args]:
+        raise TranslateError("BoltzmannSolver.__init__ does not keep the caller's grid object")
+    for st in init.body:
+        for n in ast.walk(st):
+            if isinstance(n, ast.Name) and n.id == "grid" and isinstance(n.ctx, ast.Store):
+                raise TranslateError("BoltzmannSolver.__init__ re-binds grid")
+    facts.append("BoltzmannSolver.grid is the caller's grid object")
     # setBackground installs a copy of the WHOLE background, then boosts it
     fn = _method(cls, "setBackground")
     body = [ast.unparse(st) for st in fn.body if not _is_doc(st)]
@@ -1017,6 +1260,8 @@ def generate(grid_src, poly_src, boltz_src, eom_src, helpers_src, package=None):
     facts.update(tfacts)
     facts["getters"] = getters
     facts["plumbing"] = gen_plumbing(boltz_src, eom_src)
+    if package is not None:
+        facts["plumbing"] += gen_copy_facts(package)
     text = PRELUDE + "\n".join([g_txt, i_txt, b_txt, t_txt]) + "\n"
     return text, spans, facts
 
